@@ -190,9 +190,78 @@ pub fn one_run(seed: u64, run: u64, pools: &Pools, deliveries: usize) -> RunOutc
             }
         }
     }
+    // thread teardown: a verifier thread's last calls may come from the destructor of one of the
+    // application's own thread-locals, after the library's thread-locals (if it has any) are gone
+    if let Some((class, detail)) = teardown_probe(&mut rng, pools, &mut st) {
+        out.violations.push(Violation { property: PROP, class, detail, replay: json!({"kind": "rerun"}), run });
+    }
     st.log_hash = log.hash;
     out.stats = st;
     out
+}
+
+/// What a destructor of an application thread-local does with the library while its thread exits.
+struct TeardownProbe {
+    n: usize,
+    msg: Vec<u8>,
+    sig: Vec<u8>,
+    pk: Vec<u8>,
+    sk: Vec<u8>,
+    report: std::sync::mpsc::Sender<Result<(), String>>,
+}
+
+impl Drop for TeardownProbe {
+    fn drop(&mut self) {
+        let d = |target: Target, bytes: &Vec<u8>| Delivery { n: self.n, target, bytes: bytes.clone(), msg: self.msg.clone(), pk: self.pk.clone(), pristine: None, faults: vec![], origin: "teardown".into(), detail: String::new() };
+        for (what, del) in [("from_bytes+verify", d(Target::Verify, &self.sig)), ("PublicKey::from_bytes", d(Target::Pk, &self.pk)), ("SecretKey::from_bytes", d(Target::Sk, &self.sk)), ("Signature::from_bytes", d(Target::Sig, &self.sig))] {
+            if let Err(u) = guarded(|| dl::execute_dyn(&del)) {
+                let _ = self.report.send(Err(format!("{}: {}", what, u.signature())));
+                return;
+            }
+        }
+        let _ = self.report.send(Ok(()));
+    }
+}
+
+thread_local! {
+    static TEARDOWN: std::cell::RefCell<Option<TeardownProbe>> = const { std::cell::RefCell::new(None) };
+}
+
+fn teardown_probe(rng: &mut Prng, pools: &Pools, st: &mut Stats) -> Option<(String, String)> {
+    let n = if rng.chance(1, 2) { 512 } else { 1024 };
+    let (msg, sig, pk, sk) = if n == 512 {
+        let k = rng.pick(&pools.p512.keys);
+        let (m, s) = rng.pick(&k.sigs).clone();
+        (m, s, k.pk_bytes.clone(), k.sk_bytes.clone())
+    } else {
+        let k = rng.pick(&pools.p1024.keys);
+        let (m, s) = rng.pick(&k.sigs).clone();
+        (m, s, k.pk_bytes.clone(), k.sk_bytes.clone())
+    };
+    let (tx, rx) = std::sync::mpsc::channel();
+    let probe = TeardownProbe { n, msg: msg.clone(), sig: sig.clone(), pk: pk.clone(), sk: sk.clone(), report: tx };
+    let warm = Delivery { n, target: Target::Verify, bytes: sig, msg, pk, pristine: None, faults: vec![], origin: "teardown-warm-up".into(), detail: String::new() };
+    let h = std::thread::spawn(move || {
+        // the harness's own thread-local (panic bookkeeping) first, then the application's, so that both are
+        // destroyed after anything the library registers later
+        let _ = guarded(|| ());
+        TEARDOWN.with(|t| *t.borrow_mut() = Some(probe));
+        let _ = guarded(|| dl::execute_dyn(&warm));
+    });
+    let joined = h.join();
+    st.inc("fault.T1_calls_during_thread_teardown");
+    st.evaluations += 4;
+    match rx.recv_timeout(std::time::Duration::from_secs(30)) {
+        Ok(Ok(())) => None,
+        Ok(Err(e)) => Some((format!("unwind during thread teardown (variant {})", n), e)),
+        Err(_) => {
+            if joined.is_err() {
+                Some((format!("unwind during thread teardown (variant {})", n), "the verifier thread died in its destructors".into()))
+            } else {
+                None
+            }
+        }
+    }
 }
 
 pub fn replay(doc: &Value) -> Option<String> {
